@@ -311,7 +311,7 @@ class BuildAssembly(Assembly):
                 continue
 
             build_scffld = hap_name_scaffold.setdefault(
-                (scffld.haplotype, scffld.name),
+                (scffld.tag, scffld.haplotype, scffld.name),
                 Scaffold(
                     scffld.name,
                     tag=scffld.tag,
